@@ -12,7 +12,7 @@ mod surface;
 pub fn spec() -> PropSpec {
     PropSpec {
         id: "C03",
-        rule: "cases: operand pairs built from edge shapes (constants, 2^k±1, patterned limbs 0/MAX/…, runs of ones, random bit length, uniform, zero-padded), related operands, and a recursive Karatsuba-half construction (halves equal / ±1 / zero / ordered oppositely at every split level); every multiplication / squaring form of the width is checked on each pair against the BigUint product. non-trivial: both operands have >= 2 significant bits and the exact product needs more than one limb; distinct by the operand limbs (+ widths). surface/* (API-surface audit, /verif/audit/B.md): the same generators and rule at further widths (13, 15, 17, 24, 33 limbs, more mixed and Concat widths) and through further routes (generic functions, by-reference wrapper forms, Checked operands that are none or were built through From<CtOption> / constant-time selection / a bincode round trip; limb pairs also as (a, floor(MAX/a) + {-1,0,1})); pow route (num_traits::pow): exponent 0..7, base arbitrary / of about BITS/e bits (powers on both sides of 2^BITS) / below 4, non-trivial when the base has >= 2 bits, the exponent is >= 2 and the power needs more than one limb.",
+        rule: "cases: operand pairs built from edge shapes (constants, 2^k±1, patterned limbs 0/MAX/…, runs of ones, random bit length, uniform, zero-padded), related operands, and a recursive Karatsuba-half construction (halves equal / ±1 / zero / ordered oppositely at every split level); every multiplication / squaring form of the width is checked on each pair against the BigUint product. non-trivial: both operands have >= 2 significant bits and the exact product needs more than one limb; distinct by the operand limbs (+ widths). surface/* (API-surface audit, /verif/audit/B.md): the same generators and rule at further widths (13, 15, 17, 24, 33 limbs, more mixed and Concat widths) and through further routes (generic functions, by-reference wrapper forms, Checked operands that are none or were built through From<CtOption> / constant-time selection / a bincode round trip; limb pairs also as (a, floor(MAX/a) + {-1,0,1})); pow route (num_traits::pow): exponent 0..7, base arbitrary / of about BITS/e bits (powers on both sides of 2^BITS) / below 4, non-trivial when the base has >= 2 bits, the exponent is >= 2 and the power needs more than one limb. Since seeding round 4: Karatsuba operands with an all-ones middle column of the square (x1 = s, x0 = b - (s^2+1)/2 +- 1, at every recursion level), and the source-literal dictionary (one pair in twelve).",
         assumptions: vec![
             "num-bigint multiplication is correct (independent implementation)".into(),
             "bridging uses from_words/to_words only".into(),
@@ -31,6 +31,33 @@ pub(crate) fn kara_build(t: &mut Tape, n: usize) -> Limbs {
         return gen::limbs(t, n);
     }
     let h = n / 2;
+    if t.chance(1, 10) {
+        // x = x1 * b + x0 (b = 2^(64h)) with hi(x0^2) + lo(x1^2) = b - 1 (+ a small offset): the middle
+        // column of the Karatsuba recombination of x^2 is all ones, so a carry from the column below
+        // has to ripple through a whole half. x1 = s odd and small, x0 = b - (s^2 + 1)/2 gives exactly
+        // b - 1; the offsets and x1 * x0 variants land next to it.
+        let s = (t.edgy(1 << 30) | 1) as u128;
+        let c = (s * s + 1) / 2;
+        let c = match t.below(4) {
+            0 | 1 => c,
+            2 => c + 1,
+            _ => c.saturating_sub(1).max(1),
+        };
+        // x0 = b - c
+        let mut lo = vec![u64::MAX; h];
+        let (c0, c1) = (c as u64, (c >> 64) as u64);
+        let (d0, br) = u64::MAX.overflowing_sub(c0.wrapping_sub(1));
+        lo[0] = d0;
+        let _ = br;
+        if h >= 2 && c1 > 0 {
+            lo[1] = u64::MAX - c1;
+        }
+        let mut hi = vec![0u64; h];
+        hi[0] = s as u64;
+        let mut v = if t.chance(3, 4) { [lo, hi].concat() } else { [hi, lo].concat() };
+        v.truncate(n);
+        return v;
+    }
     let lo = kara_build(t, h);
     let hi = match t.weighted(&[3, 2, 1, 3]) {
         0 => gen::related(t, &lo),
@@ -64,6 +91,9 @@ pub(crate) fn mul_pair(t: &mut Tape, l: usize, r: usize) -> (Limbs, Limbs) {
     } else {
         operand(t, r)
     };
+    let (mut a, mut b) = (a, b);
+    // a limb tied to an integer literal of the source under test (fuzzer-style dictionary)
+    gen::dict_salt(t, &mut a, &mut b);
     (a, b)
 }
 
